@@ -2,6 +2,7 @@ package main
 
 import (
 	"fmt"
+	"unsafe"
 	"go/token"
 	"go/types"
 
@@ -632,8 +633,61 @@ func (i *Interp) callBuiltin(caller *frame, fn *ssa.Builtin, args []value) value
 	case "ssa:deferstack":
 		return &caller.defers
 
+	case "String": // unsafe.String(ptr *byte, len)
+		n := int(i.concInt(args[1], types.Typ[types.Int]))
+		bs := i.unsafeElems(args[0], n)
+		c := make([]value, n)
+		copy(c, bs)
+		return normStr(c)
+
+	case "StringData": // unsafe.StringData(s) *byte
+		return &strData{s: args[0]}
+
+	case "SliceData": // unsafe.SliceData(s) *T
+		sl := args[0].([]value)
+		if cap(sl) == 0 {
+			return (*value)(nil)
+		}
+		return &sl[:1][0]
+
+	case "Slice": // unsafe.Slice(ptr, len)
+		n := int(i.concInt(args[1], types.Typ[types.Int]))
+		if sd, ok := args[0].(*strData); ok {
+			b := strBytes(sd.s)
+			c := make([]value, n)
+			copy(c, b[:n])
+			return c
+		}
+		return i.unsafeElems(args[0], n)
+
 	case "real", "imag", "complex":
 		panic(engineAbort{kind: "unsupported", msg: "complex numbers"})
 	}
 	panic("unknown built-in: " + fn.Name())
+}
+
+// strData is the result of unsafe.StringData.
+type strData struct{ s value }
+
+// unsafeElems returns the n elements starting at pointer p (an element of a
+// slice/array backing store, or string data).
+func (i *Interp) unsafeElems(p value, n int) []value {
+	switch p := p.(type) {
+	case *strData:
+		return strBytes(p.s)[:n]
+	case *value:
+		if p == nil {
+			if n == 0 {
+				return nil
+			}
+			panic(i.rtPanic("unsafe: nil pointer with non-zero length"))
+		}
+		if n == 0 {
+			return []value{}
+		}
+		return unsafe.Slice(p, n)
+	case uptr:
+		return i.unsafeElems(p.p, n)
+	}
+	panic(engineAbort{kind: "unsupported", msg: fmt.Sprintf("unsafe element pointer %T", p)})
 }
